@@ -308,8 +308,9 @@ def _replay_eq(case: dict) -> List[str]:
 
 PROPS["C19"] = {"theorems": ["C19_rename", "C19_congruence", "C19_same_verdict", "scalarStep_rn", "seqStep_rn",
                              "ntupleStep_rn", "mapStep_rn", "recordStep_rn", "unionStep_rn", "maybeStep_rn", "knrStep_rn",
-                             "userStep_rn", "contPreds_rn", "runProcs_rn", "gate_tr", "gate_rej"],
-                "modules": ["KodaModel.Properties.C19"],
+                             "userStep_rn", "contPreds_rn", "runProcs_rn", "gate_tr", "gate_rej",
+                             "C19_src_reads_compared", "C19_src_classes", "C19_src_compares_something"],
+                "modules": ["KodaModel.Properties.C19", "KodaModel.Properties.C19Src"],
                 "level_note": "C19_rename: for every validator tree (every kind, any depth, Lazy through the environment), mode, "
                               "fuel and input, renaming the identities of validator / predicate / processor objects renames "
                               "them in the result and changes nothing else; C19_congruence: two trees that coincide once "
@@ -317,7 +318,11 @@ PROPS["C19"] = {"theorems": ["C19_rename", "C19_congruence", "C19_same_verdict",
                               "return the same result up to that renaming on every input.  The reading of == itself is tied "
                               "to the code by the pair stream (real == against same-configuration on every generated pair); "
                               "pairs that are == through numerically equal parameters of different types (Min(1) / Min(1.0)) "
-                              "are outside the theorem and decided by the input pool only",
+                              "are outside the theorem and decided by the input pool only.  C19_src_reads_compared (regenerated on every "
+                              "run from the AST of the 18 validator classes): every constructor parameter that what the validation "
+                              "methods read depends on (through a conservative dependency analysis of __init__) is one that "
+                              "something __eq__ compares depends on - an __eq__ that drops a comparison, or a method that reads a "
+                              "new uncompared attribute, no longer checks",
                 "run": _run_eq, "replay": _replay_eq,
                 "rule": "pairs (t, independent rebuild of t) and (t, t with one constructor argument changed at one node) "
                         "for every validator kind; the real == is compared with the model's same-configuration relation; "
